@@ -15,7 +15,7 @@ loop = the input class of known finding F26).
 Nodes: ["t", text] | ["x"] | ["a", n] (``{{ af(n) }}``: async data function awaiting n times) |
 ["s"] (sync data function) | ["i"] (innermost loop variable) |
 ["for", itkind, count, filt, loopuse, else, recursive, body] | ["blk", name, scoped, body] | ["sup"] |
-["inc", name, with_context] | ["if", body] | ["fil", body] | ["set", body] |
+["inc", name, with_context, mode] (mode: plain / ignore missing / missing target / name list) | ["if", body] | ["fil", body] | ["set", body] |
 ["mac", idx, body, callbody | None] | ["imp", lib, with_context]
 
 Faults (driven by a hand-written coroutine runner: the coroutine under test is advanced with
@@ -45,7 +45,7 @@ PID = "C36"
 LEVEL = "fault_enumeration"
 RULE = (
     "Hypothesis draws a template set (main template, optional extends chain of depth <= 2 whose extends tags are plain, if-wrapped (not known at compile time) or preceded by statements/output, included templates some of "
-    "which extend the chain, a macro library; bodies with nested blocks, super(), includes with and without context, "
+    "which extend the chain, a macro library; bodies with nested blocks, super(), includes with and without context, with ignore missing (existing and missing targets) and name lists, "
     "imports, macros and call blocks, filter/set buffers, for loops over lists / async generators / async iterators, "
     "filtered loops with plain or async tests, loop.index/last/length, else, recursive). A dry run counts N chunks of "
     "generate_async, A suspensions of render_async / of a generate_async consumer and J data calls; then every fault "
@@ -120,7 +120,11 @@ def _body_src(nodes, d):
         elif k == "sup":
             out.append("{{ super() }}")
         elif k == "inc":
-            out.append("{%% include '%s'%s %%}" % (n[1], "" if n[2] else " without context"))
+            # optional 4th field: 0 plain | 1 ignore missing (target exists) | 2 ignore missing, target missing |
+            # 3 name list whose first entry is missing | 4 name list + ignore missing
+            mode = n[3] if len(n) > 3 else 0
+            target = {0: "'%s'", 1: "'%s'", 2: "'zz_%s'", 3: "['zz', '%s']", 4: "['zz', '%s']"}[mode] % n[1]
+            out.append("{%% include %s%s%s %%}" % (target, " ignore missing" if mode in (1, 2, 4) else "", "" if n[2] else " without context"))
         elif k == "if":
             out.append("{%% if x %%}%s{%% endif %%}" % _body_src(n[1], d))
         elif k == "fil":
@@ -582,6 +586,8 @@ def execute(case, judge_floop=False):
 
     main = case.get("main", "main")
     labels = ["kind_" + fault.get("kind", "none"), "via_" + fault.get("via", "render"), "end_" + status]
+    if '"inc", ' in core.canon(case["t"]) and any(m in core.canon(sources(case)) for m in ("ignore missing", "['zz'")):
+        labels.append("include_ignore_or_list")
     if any(td.get("ext") and td.get("extmode", 0) in (1, 3) for td in case["t"].values()):
         labels.append("dynamic_extends")
     if aio:
@@ -681,7 +687,8 @@ def _strategy(maxdepth):
                 c2 = dict(c, super=name in c["inherited"], loopd=c["loopd"] if scoped else 0, minblk=BLOCKS.index(name))
                 return ["blk", name, scoped, self.body(c2, depth + 1)]
             if k == "inc":
-                return ["inc", draw(st.sampled_from(c["incs"])), draw(st.sampled_from([True, True, False]))]
+                return ["inc", draw(st.sampled_from(c["incs"])), draw(st.sampled_from([True, True, False])),
+                        draw(st.sampled_from([0, 0, 1, 1, 2, 3, 4]))]
             if k in ("if", "fil", "set"):
                 return [k, self.body(c, depth + 1, 1, 2)]
             if k == "mac":
@@ -869,7 +876,7 @@ PHASES = {"quick": [(3, 1000)], "thorough": [(3, 2000), (4, 4000), (5, 2000)]}
 def floors(total, tier):
     lab = total.labels
     need = ["kind_close", "kind_cancel", "kind_raise", "kind_none", "drv_aio", "in_block", "in_include", "in_parent",
-            "in_import", "in_include_ext", "dynamic_extends", "end_cancelled", "end_boom", "nontrivial"]
+            "in_import", "in_include_ext", "dynamic_extends", "include_ignore_or_list", "end_cancelled", "end_boom", "nontrivial"]
     missing = [n for n in need if lab.get(n, 0) < 20]
     if missing:
         return "label classes below floor 20: %s" % missing
